@@ -22,3 +22,19 @@ Definition deletes (file_name : bytes) (max_age now : Z) (e : dirent) : bool :=
 (* survivors, in directory order *)
 Definition clear_expired (file_name : bytes) (max_age now : Z) (dir : list dirent) : list dirent :=
   filter (fun e => negb (deletes file_name max_age now e)) dir.
+
+(* ---- histories: between cleanup passes of ONE appender the world writes to, touches, creates entries ---- *)
+Record phase := { ph_now : Z  (* the clock at the pass *);
+                  ph_set : list dirent  (* entries written / touched / created since the previous pass (name -> new state) *) }.
+
+Definition named (n : bytes) (l : list dirent) : bool := existsb (fun e => bytes_eqb (de_name e) n) l.
+
+(* the directory as the pass finds it: what is left of the old listing, overridden by the changes *)
+Definition apply_updates (dir upd : list dirent) : list dirent :=
+  filter (fun e => negb (named (de_name e) upd)) dir ++ upd.
+
+Definition pass (file_name : bytes) (max_age : Z) (dir : list dirent) (p : phase) : list dirent :=
+  clear_expired file_name max_age (ph_now p) (apply_updates dir (ph_set p)).
+
+Definition run_phases (file_name : bytes) (max_age : Z) (dir : list dirent) (ps : list phase) : list dirent :=
+  fold_left (pass file_name max_age) ps dir.
